@@ -750,14 +750,53 @@ func (c *FnCtx) elemAddr(ptr, idx string, elem types.Type) string {
 
 // alloc returns a fresh address range of n bytes (n an SMT term).
 func (c *FnCtx) allocate(st *State, nbytes string) string {
+	a := c.allocateRaw(st, nbytes)
+	c.facts = append(c.facts, eq(app("objty", a), "0"))
+	return a
+}
+
+// allocateObj: a fresh struct object of type t (its base address carries the type tag).
+func (c *FnCtx) allocateObj(st *State, t types.Type) string {
+	a := c.allocateRaw(st, fmt.Sprint(c.sizeof(t)))
+	c.markObj(a, t)
+	return a
+}
+
+func (c *FnCtx) allocateRaw(st *State, nbytes string) string {
 	a := c.fresh("addr")
 	c.declConst(a, "Int")
 	c.facts = append(c.facts, and(app(">", a, "0"), app(">=", a, st.alloc)))
 	na := c.fresh("alloc")
 	c.declConst(na, "Int")
 	c.facts = append(c.facts, eq(na, app("+", a, nbytes, "1")), app("<", na, "281474976710656"))
+	oldAlloc := st.alloc
 	st.alloc = na
+	// only the base address of an object carries a type; nothing else between the old and the
+	// new allocation frontier does (padding before the block included)
+	c.useObjTy()
+	if oldAlloc == "0" {
+		// objects created while evaluating package-level initialisers: their place relative to
+		// the function's own heap is unknown
+		return a
+	}
+	c.facts = append(c.facts, fmt.Sprintf("(forall ((k Int)) (! (=> (and (<= %s k) (< k %s) (not (= k %s))) (= (objty k) 0)) :pattern ((objty k))))", oldAlloc, na, a))
 	return a
+}
+
+// objty: the static map from base addresses of allocated struct objects to their type tag (0
+// for every other address of an allocated block, and for the base of a block that is not a
+// struct object unless markObj says otherwise).
+func (c *FnCtx) useObjTy() {
+	if !c.declSet["objty"] {
+		c.declSet["objty"] = true
+		c.decls = append(c.decls, "(declare-fun objty (Int) Int)")
+	}
+}
+
+// markObj records the type of the object just allocated at a.
+func (c *FnCtx) markObj(a string, t types.Type) {
+	c.useObjTy()
+	c.facts = append(c.facts, eq(app("objty", a), c.typeTag(t)))
 }
 
 func (c *FnCtx) typeTag(t types.Type) string {
